@@ -42,8 +42,9 @@ CONSTANTS
   D,           \* bound on Len(hist)
   CbMode       \* 0: no callbacks (C12)  1: immediate callbacks  2: deferred callbacks (C13)
 
-VARIABLES st, hist
-vars == <<st, hist>>
+VARIABLES st, hist, pend
+vars == <<st, hist, pend>>
+NoOp == [a |-> "none"]
 
 NB == 2
 Bufs == 1..NB
@@ -173,6 +174,7 @@ InitSt ==
   [ buf |-> [b \in Bufs |-> <<>>],
     fs |-> [b \in Bufs |-> FALSE], fe |-> [b \in Bufs |-> FALSE],
     sp |-> [b \in Bufs |-> FALSE],          \* may hold file-segment / multicast chains
+    ec |-> [b \in Bufs |-> FALSE],          \* empty, but may own an (empty) chain
     cb |-> [b \in Bufs |-> [k \in 1..NCB |-> InitCb]],
     cbo |-> [b \in Bufs |-> <<>>],
     acc |-> [b \in Bufs |-> <<0, 0>>],
@@ -344,6 +346,9 @@ OpSane(S, op) ==
   \* AvoidKnown: reserve_space(0, vec, n >= 2) on a buffer whose last chain is full trips an assertion
   \* (finding reserve-zero-full-chain); it is replayed separately under "rz0" \in Acts
   /\ (op.a = "rescommit" /\ op.nb = 0 /\ op.nv > 1 => "rz0" \in Acts)
+  \* AvoidKnown: add_buffer_reference into an empty buffer that still owns an empty chain uses the chain
+  \* after freeing it (finding addbufref-empty-dst-chain); replayed separately under "abr0" \in Acts
+  /\ (op.a = "addbufref" /\ S.ec[op.b] /\ S.buf[op.s] # <<>> => "abr0" \in Acts)
   /\ (op.a = "addfile" => Len(S.buf[op.b]) + 4 <= MaxLen)
   /\ (op.a \in {"addbuf", "prependbuf", "addbufref"} => (op.s # op.b => Len(S.buf[op.b]) + Len(S.buf[op.s]) <= MaxLen))
   /\ (op.a = "rmbuf" => Len(S.buf[op.s]) + NClip(S.buf[op.b], op.n) <= MaxLen)
@@ -356,14 +361,27 @@ OpSane(S, op) ==
 Obs(S, o) == IF CbMode = 0 THEN o @@ [q |-> [b \in Bufs |-> QB(S, b)]]
              ELSE o @@ [q |-> [b \in Bufs |-> QB(S, b)], cb |-> S.cblog]
 
+(* A call is generated in two steps so that TLC's simulator (which computes every successor
+   before picking one) only evaluates the expensive observation for the chosen operation:
+   Do picks the operation, Apply performs it and records the observation. *)
 Do(fam) ==
   /\ fam \in Acts
   /\ Len(hist) < D
-  /\ \E op \in OpsOf(st, fam) :
-       /\ OpSane(st, op)
-       /\ LET Rr == ApplyOp([st EXCEPT !.cblog = <<>>], op)
-          IN /\ st' = Rr.s
-             /\ hist' = Append(hist, op @@ [o |-> Obs(Rr.s, Rr.o)])
+  /\ pend = NoOp
+  /\ \E op \in OpsOf(st, fam) : OpSane(st, op) /\ pend' = op
+  /\ UNCHANGED <<st, hist>>
+
+Apply ==
+  /\ pend # NoOp
+  /\ LET op == pend
+         Rr == ApplyOp([st EXCEPT !.cblog = <<>>], op)
+         S2 == [Rr.s EXCEPT !.ec = [b \in Bufs |->
+                   IF Rr.s.buf[b] # <<>> THEN FALSE
+                   ELSE IF op.a \in {"expand", "add", "printf", "rescommit", "addiov", "addfile"} /\ op.b = b /\ Rr.o.r # -1 THEN TRUE
+                   ELSE IF st.buf[b] # <<>> THEN FALSE ELSE st.ec[b]]]
+     IN /\ st' = S2
+        /\ hist' = Append(hist, op @@ [o |-> Obs(S2, Rr.o)])
+  /\ pend' = NoOp
 
 Add == Do("add")
 AddRef == Do("addref")
@@ -389,10 +407,10 @@ CbDel == Do("cbdel")
 CbFlag == Do("cbflag")
 Loop == Do("loop")
 
-Init == st = InitSt /\ hist = <<>>
+Init == st = InitSt /\ hist = <<>> /\ pend = NoOp
 Next == Add \/ AddRef \/ Prepend \/ Printf \/ AddIov \/ ResCommit \/ AddBuf \/ PrependBuf \/ RmBuf
         \/ AddBufRef \/ AddFile \/ Drain \/ Remove \/ Copyout \/ Pullup \/ Expand \/ Readln
-        \/ Freeze \/ Unfreeze \/ CbAdd \/ CbDel \/ CbFlag \/ Loop
+        \/ Freeze \/ Unfreeze \/ CbAdd \/ CbDel \/ CbFlag \/ Loop \/ Apply
 Spec == Init /\ [][Next]_vars
 
 ----------------------------------------------------------------------------
@@ -442,6 +460,6 @@ Inv == TypeOK /\ SearchSound /\ EolSound /\ ReportConsistent /\ AccBounded
 
 ----------------------------------------------------------------------------
 GenConstraint == Len(hist) <= D
-Emit == (Len(hist) = D) => PrintT(ToJson(hist))
+Emit == (Len(hist) = D /\ pend = NoOp) => PrintT(ToJson(hist))
 StateView == <<st>>
 =============================================================================
